@@ -2,6 +2,7 @@ package rules
 
 import (
 	"go/token"
+	"sort"
 	"go/types"
 
 	"golang.org/x/tools/go/ssa"
@@ -42,14 +43,10 @@ func checkC08(c *Ctx) {
 			r.Undecided("C08/PAIR/enforcer", siteName(a), p.InstrPos(a.in), "cannot locate the call running the inserting closure")
 			continue
 		}
-		isDeliver := func(in ssa.Instruction) bool {
-			call, ok := in.(*ssa.Call)
-			return ok && eng.StaticCallee(call.Common()) == pm.enforcerDlv
-		}
-		if ret := (&eng.Search{Target: eng.IsReturn, Avoid: isDeliver}).After(ri); ret != nil {
-			r.Bad("C08/PAIR/enforcer", siteName(a), p.InstrPos(ri), "a path from the insert to return at %s does not call enforcerDeliver: the message is never accounted", p.InstrPos(ret))
+		if v := pm.checkIn(T, ri, "enforcer-deliver", 0, map[*ssa.Function]bool{}); !v.ok {
+			r.Bad("C08/PAIR/enforcer", siteName(a), p.InstrPos(ri), "the inserted message is never accounted: %s", v.detail)
 		} else {
-			r.Ok("C08/PAIR/enforcer", siteName(a), p.InstrPos(ri), "insert is followed by enforcerDeliver on every path")
+			r.Ok("C08/PAIR/enforcer", siteName(a), p.InstrPos(ri), "insert is followed by enforcerDeliver on every path (%s)", v.detail)
 		}
 	}
 	for _, s := range pm.removes {
@@ -76,86 +73,118 @@ func (c *Ctx) c08Enforcer(pm *pairModel) {
 	r, p := c.R, c.P
 	E := pm.enforcerLoop
 	cons := shortFn(E)
+	// the enforcer goroutine's code: the loop and the package helpers it runs synchronously
+	var F []*ssa.Function
+	for fn := range p.SyncReach(E) {
+		if eng.FuncPkgPath(fn) == eng.FuncPkgPath(E) {
+			F = append(F, fn)
+		}
+	}
+	sortFuncs(F)
 	var pushBack, pushFront, front, back, removes []*ssa.Call
-	eng.EachInstr(E, func(in ssa.Instruction) {
-		call, ok := in.(*ssa.Call)
-		if !ok {
-			return
-		}
-		switch eng.CalleeName(call.Common()) {
-		case "(*container/list.List).PushBack":
-			pushBack = append(pushBack, call)
-		case "(*container/list.List).PushFront", "(*container/list.List).InsertBefore", "(*container/list.List).InsertAfter", "(*container/list.List).MoveToFront", "(*container/list.List).MoveToBack":
-			pushFront = append(pushFront, call)
-		case "(*container/list.List).Front":
-			front = append(front, call)
-		case "(*container/list.List).Back":
-			back = append(back, call)
-		case "(*container/list.List).Remove":
-			removes = append(removes, call)
-		}
-	})
+	for _, fn := range F {
+		eng.EachInstr(fn, func(in ssa.Instruction) {
+			call, ok := in.(*ssa.Call)
+			if !ok {
+				return
+			}
+			switch eng.CalleeName(call.Common()) {
+			case "(*container/list.List).PushBack":
+				pushBack = append(pushBack, call)
+			case "(*container/list.List).PushFront", "(*container/list.List).InsertBefore", "(*container/list.List).InsertAfter", "(*container/list.List).MoveToFront", "(*container/list.List).MoveToBack":
+				pushFront = append(pushFront, call)
+			case "(*container/list.List).Front":
+				front = append(front, call)
+			case "(*container/list.List).Back":
+				back = append(back, call)
+			case "(*container/list.List).Remove":
+				removes = append(removes, call)
+			}
+		})
+	}
 	if len(pushBack) == 1 && len(pushFront) == 0 && len(front) >= 1 && len(back) == 0 {
 		r.Ok("C08/ENFORCER/shape", cons+":fifo", p.InstrPos(pushBack[0]), "arrivals PushBack, evictions from Front()")
 	} else {
 		r.Bad("C08/ENFORCER/shape", cons+":fifo", p.Pos(E.Pos()), "list discipline is not push-back/evict-front (PushBack=%d other-insert/move=%d Front=%d Back=%d): eviction is not oldest-first", len(pushBack), len(pushFront), len(front), len(back))
 	}
-	// eviction loop guard: an If whose condition is (size-phi > maxSize param) and whose
-	// true edge leads to the Front()/Remove body
+	// eviction loop guard: an If whose condition is (byte account > limit) and whose true
+	// edge leads to the Front()/Remove body. The limit is the enforcer's integer parameter or
+	// a field the parameter is stored into.
 	var maxParam ssa.Value
 	for _, prm := range E.Params {
 		if b, ok := prm.Type().Underlying().(*types.Basic); ok && b.Info()&types.IsInteger != 0 {
 			maxParam = prm
 		}
 	}
-	guardOK, guardSite := false, ""
-	var guardWhy string
-	for _, b := range E.Blocks {
-		rel, ok := eng.EdgeRel(b, 0)
-		if !ok {
-			continue
-		}
-		if rel.X == maxParam {
-			rel = rel.Swap()
-		}
-		if rel.Y != maxParam {
-			continue
-		}
-		guardSite = p.InstrPos(eng.IfOf(b))
-		// which edge evicts (reaches Front())?
-		evictEdge := -1
-		for k := 0; k < 2; k++ {
-			if eng.BlockReaches(b.Succs[k], func(in ssa.Instruction) bool {
-				call, ok := in.(*ssa.Call)
-				return ok && eng.CalleeName(call.Common()) == "(*container/list.List).Front"
-			}, func(in ssa.Instruction) bool { return in == ssa.Instruction(eng.IfOf(b)) }) != nil {
-				if evictEdge == -1 {
-					evictEdge = k
+	limitFields := map[*types.Var]bool{}
+	for _, fn := range F {
+		eng.EachInstr(fn, func(in ssa.Instruction) {
+			if st, ok := in.(*ssa.Store); ok && maxParam != nil && eng.StripConv(st.Val) == maxParam {
+				if fa, ok := st.Addr.(*ssa.FieldAddr); ok {
+					limitFields[eng.FieldOfAddr(fa)] = true
 				}
 			}
+		})
+	}
+	isLimit := func(v ssa.Value) bool {
+		v = eng.StripConv(v)
+		if maxParam != nil && v == maxParam {
+			return true
 		}
-		if evictEdge == -1 {
-			continue
+		if f := eng.LoadedField(v); f != nil && limitFields[f] {
+			return true
 		}
-		er := rel
-		if evictEdge == 1 {
-			er = rel.Neg()
-		}
-		if er.Op == token.GTR {
-			guardOK = true
-		} else {
-			guardWhy = "eviction continues while curSize " + er.Op.String() + " maxSize; must be strictly `>` (evict only what is necessary)"
+		return false
+	}
+	guardOK, guardSite := false, ""
+	var guardWhy string
+	for _, fn := range F {
+		for _, b := range fn.Blocks {
+			rel, ok := eng.EdgeRel(b, 0)
+			if !ok {
+				continue
+			}
+			if isLimit(rel.X) {
+				rel = rel.Swap()
+			}
+			if !isLimit(rel.Y) {
+				continue
+			}
+			// which edge evicts (reaches Front())?
+			evictEdge := -1
+			for k := 0; k < 2; k++ {
+				if eng.BlockReaches(b.Succs[k], func(in ssa.Instruction) bool {
+					call, ok := in.(*ssa.Call)
+					return ok && eng.CalleeName(call.Common()) == "(*container/list.List).Front"
+				}, func(in ssa.Instruction) bool { return in == ssa.Instruction(eng.IfOf(b)) }) != nil {
+					if evictEdge == -1 {
+						evictEdge = k
+					}
+				}
+			}
+			if evictEdge == -1 {
+				continue
+			}
+			guardSite = p.InstrPos(eng.IfOf(b))
+			er := rel
+			if evictEdge == 1 {
+				er = rel.Neg()
+			}
+			if er.Op == token.GTR {
+				guardOK = true
+			} else {
+				guardWhy = "eviction continues while curSize " + er.Op.String() + " maxSize; must be strictly `>` (evict only what is necessary)"
+			}
 		}
 	}
 	if guardSite == "" {
 		r.Bad("C08/ENFORCER/shape", cons+":guard", p.Pos(E.Pos()), "no eviction loop guard comparing the byte account with the maxSize parameter")
-	} else if guardOK {
+	} else if guardOK && guardWhy == "" {
 		r.Ok("C08/ENFORCER/shape", cons+":guard", guardSite, "eviction loop runs while curSize > maxSize")
 	} else {
 		r.Bad("C08/ENFORCER/shape", cons+":guard", guardSite, "%s", guardWhy)
 	}
-	// accounting arithmetic: the account is a phi web of int64; count +Size() after PushBack
-	// and -Size() under each effective Remove
+	// accounting arithmetic: count +Size() after PushBack and -Size() under each effective Remove
 	isSizeCall := func(v ssa.Value) bool {
 		v = eng.StripConv(v)
 		call, ok := v.(*ssa.Call)
@@ -166,19 +195,21 @@ func (c *Ctx) c08Enforcer(pm *pairModel) {
 		return g != nil && g.Name() == "Size" && eng.InModule(g)
 	}
 	var adds, subs []*ssa.BinOp
-	eng.EachInstr(E, func(in ssa.Instruction) {
-		b, ok := in.(*ssa.BinOp)
-		if !ok {
-			return
-		}
-		if b.Op == token.ADD && isSizeCall(b.Y) {
-			adds = append(adds, b)
-		}
-		if b.Op == token.SUB && isSizeCall(b.Y) {
-			subs = append(subs, b)
-		}
-	})
-	if len(pushBack) == 1 && len(adds) == 1 && eng.Dominates(pushBack[0], adds[0]) {
+	for _, fn := range F {
+		eng.EachInstr(fn, func(in ssa.Instruction) {
+			b, ok := in.(*ssa.BinOp)
+			if !ok {
+				return
+			}
+			if b.Op == token.ADD && isSizeCall(b.Y) {
+				adds = append(adds, b)
+			}
+			if b.Op == token.SUB && isSizeCall(b.Y) {
+				subs = append(subs, b)
+			}
+		})
+	}
+	if len(pushBack) == 1 && len(adds) == 1 && pushBack[0].Parent() == adds[0].Parent() && eng.Dominates(pushBack[0], adds[0]) {
 		r.Ok("C08/ENFORCER/shape", cons+":add", p.InstrPos(adds[0]), "push is followed by curSize += Size()")
 	} else {
 		r.Bad("C08/ENFORCER/shape", cons+":add", p.Pos(E.Pos()), "a pushed message is not added to the byte account exactly once (pushes=%d additions=%d)", len(pushBack), len(adds))
@@ -187,12 +218,12 @@ func (c *Ctx) c08Enforcer(pm *pairModel) {
 	for i, rm := range removes {
 		okSub := false
 		for _, sb := range subs {
-			if !eng.Dominates(rm, sb) {
+			if sb.Parent() != rm.Parent() || !eng.Dominates(rm, sb) {
 				continue
 			}
 			// success witness: sub's block dominated by a `x != nil` edge where x is the
 			// Remove result or the result of the removal helper fed by the removed element
-			for _, b := range E.Blocks {
+			for _, b := range rm.Parent().Blocks {
 				for k := 0; k < len(b.Succs) && len(b.Succs) == 2; k++ {
 					rel, ok := eng.EdgeRel(b, k)
 					if !ok || rel.Op != token.NEQ || !eng.IsNilConst(rel.Y) {
@@ -210,7 +241,11 @@ func (c *Ctx) c08Enforcer(pm *pairModel) {
 				}
 			}
 		}
-		name := cons + ":sub#" + string(rune('a'+i))
+		_ = i
+		name := cons + ":sub:explicit-removal"
+		if fc, ok := rm.Call.Args[len(rm.Call.Args)-1].(*ssa.Call); ok && eng.CalleeName(fc.Common()) == "(*container/list.List).Front" {
+			name = cons + ":sub:eviction"
+		}
 		if okSub {
 			r.Ok("C08/ENFORCER/shape", name, p.InstrPos(rm), "list removal is paired with curSize -= Size() on the path where the removal was effective")
 		} else {
@@ -242,7 +277,7 @@ func (c *Ctx) c08Cap(pm *pairModel) {
 				continue
 			}
 			lx := eng.LenOf(rel.X)
-			if lx == nil || !eng.SameField(eng.LoadedField(lx), pm.memMsgs) || !eng.SameField(eng.LoadedField(eng.StripConv(rel.Y)), fCap) {
+			if lx == nil || !eng.SameField(eng.LoadedField(lx), pm.memMsgs) || !eng.SameField(eng.LoadedField(eng.StripConv(p.Actual(eng.StripConv(rel.Y)))), fCap) {
 				continue
 			}
 			if !b.Succs[0].Dominates(s.in.Block()) {
@@ -257,6 +292,31 @@ func (c *Ctx) c08Cap(pm *pairModel) {
 				if a.store == "mem" && a.fn == fn && eng.Dominates(a.in, eng.IfOf(b)) {
 					insDom = true
 				}
+			}
+			if !insDom {
+				// the loop lives in a helper: at every call site of the helper a call that
+				// performs the insert must dominate
+				sites := p.StaticCallSites(fn)
+				all := len(sites) > 0
+				for _, cs := range sites {
+					one := false
+					eng.EachInstr(cs.Instr.Parent(), func(in ssa.Instruction) {
+						call, ok := in.(*ssa.Call)
+						if !ok || !eng.Dominates(in, cs.Instr.(ssa.Instruction)) {
+							return
+						}
+						g := eng.StaticCallee(call.Common())
+						for _, a := range pm.adds {
+							if a.store == "mem" && g != nil && p.SyncReach(g)[a.fn] {
+								one = true
+							}
+						}
+					})
+					if !one {
+						all = false
+					}
+				}
+				insDom = all
 			}
 			call := s.in.(*ssa.Call)
 			keyOK := false
@@ -360,4 +420,8 @@ func (c *Ctx) c08Cap(pm *pairModel) {
 		}
 	}
 	r.Floor("C08/CAP/order", "file cap loops", nFile, 1)
+}
+
+func sortFuncs(fs []*ssa.Function) {
+	sort.Slice(fs, func(i, j int) bool { return eng.FuncName(fs[i]) < eng.FuncName(fs[j]) })
 }
